@@ -13,6 +13,7 @@ from dissect.util.stream import AlignedStream
 
 from dissect.hypervisor.disk.c_qcow2 import (
     NORMAL_SUBCLUSTER_TYPES,
+    QCOW2_INCOMPAT_MASK,
     QCOW2_MAGIC,
     UNALLOCATED_SUBCLUSTER_TYPES,
     ZERO_SUBCLUSTER_TYPES,
@@ -100,6 +101,12 @@ class QCow2(AlignedStream):
 
         if self.header.crypt_method:
             raise NotImplementedError("Encrypted qcow2 files are not supported")
+
+        if self.header.incompatible_features & ~QCOW2_INCOMPAT_MASK:
+            # An image with an unknown incompatible feature must not be opened
+            raise InvalidHeaderError(
+                f"Unsupported incompatible features: 0x{self.header.incompatible_features & ~QCOW2_INCOMPAT_MASK:x}"
+            )
 
         self.backing_format = None
         self.feature_table = None
